@@ -14,6 +14,8 @@ package main
 //   (both JSON documents, so that the oracle reads what was signed and what was verified)
 
 import (
+	"sync/atomic"
+	"sync"
 	"crypto/ed25519"
 	"encoding/json"
 	"fmt"
@@ -612,6 +614,46 @@ func c07Run(input string) string {
 	}
 	view = ""
 	res := verify(mutated, false)
+	// the signed and the altered document verified by several goroutines at once (a quarter of the cases): each
+	// verification reaches the verdict it reaches alone
+	if len(input)%4 == 0 {
+		quiet := func(doc []byte) string {
+			opts := []verifiable.CredentialOpt{verifiable.WithJSONLDDocumentLoader(e.loader), verifiable.WithPublicKeyFetcher(fetcher),
+				verifiable.WithEmbeddedSignatureSuites(verifySuite)}
+			v, err := verifiable.ParseCredential(doc, opts...)
+			if err != nil {
+				return "rej"
+			}
+			if len(v.Proofs) == 0 && v.JWT == "" {
+				return "noproof"
+			}
+			return "acc"
+		}
+		var wg sync.WaitGroup
+		var differs atomic.Bool
+		for g := 0; g < 6; g++ {
+			wg.Add(1)
+			go func(g int) {
+				defer wg.Done()
+				defer func() {
+					if recover() != nil {
+						differs.Store(true)
+					}
+				}()
+				if g%2 == 0 {
+					if quiet(signed) != base {
+						differs.Store(true)
+					}
+				} else if quiet(mutated) != res {
+					differs.Store(true)
+				}
+			}(g)
+		}
+		wg.Wait()
+		if differs.Load() {
+			return "sign=ok base=" + base + " res=verdict-differs-under-concurrent-verification"
+		}
+	}
 	if strings.HasPrefix(mut, "addcase:") {
 		// what the accepted credential reports for its signed members
 		switch {
